@@ -32,6 +32,7 @@ def run(ctx):
     panic_census(ctx, fb, fns, T)
     order(ctx, fb, fns)
     top_p(ctx, fb)
+    all_candidates(ctx, fb)
     chain(ctx, fb)
     topk_clamp(ctx, fb)
 
@@ -50,7 +51,7 @@ def scope(fb):
         if p in seen:
             continue
         f = fb.fn(p)
-        if f is None or not f.has_mir() or not p.replace('<', '').startswith(CRATE):
+        if f is None or not f.has_mir() or getattr(f.crate, 'name', None) != CRATE:
             continue
         seen.add(p)
         for (callee, c, how) in cg.callees(f):
@@ -329,6 +330,43 @@ def top_p(ctx, fb):
         thr = any(op in ('Lt', 'Le') and any(o[0] == 'call' and re.search(r'::max$', o[1] or '') for o in f.origins(b)) and t is True for (g, op, a, b, t) in cmps)
         ok2 = ok2 and thr
     ctx.inst(R, 'prefix-loop', ok2, 'candidates are counted while cum < threshold && k < len (sum starts below the positive threshold: the first candidate is always kept) and the list is truncated to the counted k', f.loc())
+
+def all_candidates(ctx, fb):
+    """top-P's never-empty guarantee and 'shortest highest-probability prefix' are stated over *all* candidates: the list
+    that is sorted and cut (TopP, Sort) is collected from zip(logits, indices) with no element-dropping or reordering
+    adaptor in between (filter / take_while / skip ...), so a non-empty input gives a non-empty list for the prefix loop"""
+    R = 'C31.top-p'
+    OKAD = r'Iterator::(zip|map|enumerate|copied|cloned)$|IntoIterator>::into_iter$|<impl \[T\]>::iter$'
+    n = 0
+    for name in ('TopP', 'Sort'):
+        f = fb.fn('<rten_generate::filter::%s as rten_generate::filter::LogitsFilter>::filter' % name)
+        if f is None or not f.has_mir():
+            continue
+        cols = [c for c in f.calls() if re.search(r'Iterator::collect$', c.callee or '')]
+        for c in cols:
+            n += 1
+            cur, chain, ok, bad = c.args[0], [], False, None
+            for _ in range(8):
+                r = f.resolve_copy(cur)
+                if r[0] != 'call':
+                    break
+                cal = r[1].callee or ''
+                if cal.endswith('Logits::into_logits_indices'):
+                    ok = True
+                    break
+                chain.append(cal.split('::')[-1])
+                if not re.search(OKAD, cal) or not r[1].args:
+                    bad = cal.split('::')[-1]
+                    break
+                cur = r[1].args[0]
+            if not ok and bad is None:
+                # the first zip operand is a field of the (logits, indices) tuple returned by into_logits_indices
+                ok = any(o[0] == 'call' and (o[1] or '').endswith('Logits::into_logits_indices') for o in f.origins(cur))
+            ctx.inst(R, 'all-candidates:' + name, ok and bad is None,
+                     'the sorted list is collected from every (score, id) pair of the input (chain: %s)' % ' <- '.join(chain) if ok and bad is None else
+                     'the candidate list passes through `%s` before it is collected: candidates are dropped before the prefix is taken, so the result can be empty for a non-empty input (or is not a prefix of the full ranking)' % (bad or '?'), c.loc())
+    ctx.floor(R, 'candidate lists collected in TopP / Sort', n, 2)
+
 
 def root_var(f, op, depth=6):
     l = op_local(op)
